@@ -231,6 +231,162 @@ theorem allocate_reuses (a a' : Arena T) (h : AInv a) (x : T) (id : Nat) (he : a
   have := (allocate_spec a h x id a' he).2.2.2.2.2.2
   simpa [hf] using this
 
+/-! ### the refinement along whole histories -/
+
+/-- the reference machine (a partial map from handles to items) run along a history:
+    `SpecRun g ops outs g'` says the calls `ops` answered `outs` one by one as `SpecStep` allows,
+    starting from the map `g` and ending in `g'` -/
+def SpecRun : (Nat → Option T) → List (Op T) → List (Out T) → (Nat → Option T) → Prop
+  | g, [], [], g' => g' = g
+  | g, op :: ops, out :: outs, g' => ∃ g1, SpecStep g op out g1 ∧ SpecRun g1 ops outs g'
+  | _, _, _, _ => False
+
+/-- **History theorem.** Every history of arena calls that returns, from any well-formed arena, answered call by
+    call exactly as the reference map answers (one output per call), and what `get` says of the final arena is the
+    reference map's final state. -/
+theorem run_refines (dflt : T) (ops : List (Op T)) :
+    ∀ (a a' : Arena T) (outs : List (Out T)), AInv a → run dflt a ops = .ok (a', outs) →
+      SpecRun a.get ops outs a'.get := by
+  induction ops with
+  | nil =>
+    intro a a' outs h hr
+    simp only [run, Res.ok.injEq, Prod.mk.injEq] at hr
+    obtain ⟨rfl, rfl⟩ := hr
+    simp [SpecRun]
+  | cons op ops ih =>
+    intro a a' outs h hr
+    simp only [run] at hr
+    cases hs : step dflt a op with
+    | ok r =>
+      rw [hs] at hr
+      simp only [Res.bind_ok] at hr
+      cases hr2 : run dflt r.1 ops with
+      | ok r' =>
+        rw [hr2] at hr
+        simp only [Res.map_ok, Res.ok.injEq, Prod.mk.injEq] at hr
+        obtain ⟨rfl, rfl⟩ := hr
+        have h1 := step_refines dflt a r.1 op r.2 h (by rw [hs])
+        exact ⟨r.1.get, h1.2.1, ih r.1 r'.1 r'.2 h1.1 (by rw [hr2])⟩
+      | panic => rw [hr2] at hr; simp [Res.map] at hr
+      | diverge => rw [hr2] at hr; simp [Res.map] at hr
+      | ub => rw [hr2] at hr; simp [Res.map] at hr
+    | panic => rw [hs] at hr; simp at hr
+    | diverge => rw [hs] at hr; simp at hr
+    | ub => rw [hs] at hr; simp at hr
+
+/-- the same from `CompactArena::new()`, whose reference map is empty -/
+theorem history_from_new (dflt : T) (ops : List (Op T)) (a' : Arena T) (outs : List (Out T))
+    (hr : run dflt Arena.empty ops = .ok (a', outs)) : SpecRun (fun _ => none) ops outs a'.get := by
+  have := run_refines dflt ops _ _ _ ainv_empty hr
+  have he : (Arena.empty : Arena T).get = fun _ => none := by
+    funext id; exact get_out_of_range _ id (by simp [Arena.empty])
+  rwa [he] at this
+
+/-- a history that returns gives one output per call -/
+theorem run_outputs_length (dflt : T) (ops : List (Op T)) :
+    ∀ (a a' : Arena T) (outs : List (Out T)), run dflt a ops = .ok (a', outs) → outs.length = ops.length := by
+  induction ops with
+  | nil => intro a a' outs hr; simp only [run, Res.ok.injEq, Prod.mk.injEq] at hr; simp [← hr.2]
+  | cons op ops ih =>
+    intro a a' outs hr
+    simp only [run] at hr
+    cases hs : step dflt a op with
+    | ok r =>
+      rw [hs] at hr
+      simp only [Res.bind_ok] at hr
+      cases hr2 : run dflt r.1 ops with
+      | ok r' =>
+        rw [hr2] at hr
+        simp only [Res.map_ok, Res.ok.injEq, Prod.mk.injEq] at hr
+        simp [← hr.2, ih r.1 r'.1 r'.2 hr2]
+      | panic => rw [hr2] at hr; simp [Res.map] at hr
+      | diverge => rw [hr2] at hr; simp [Res.map] at hr
+      | ub => rw [hr2] at hr; simp [Res.map] at hr
+    | panic => rw [hs] at hr; simp at hr
+    | diverge => rw [hs] at hr; simp at hr
+    | ub => rw [hs] at hr; simp at hr
+
+/-- **No handle is issued twice while live** (history form): if some call of a history hands out `id` and the
+    calls after it neither release `id` nor clear or compact the arena, `id` still answers at the end — so, by
+    `allocate_fresh`, no later `allocate` of that stretch can have returned it. -/
+theorem live_handle_stays (dflt : T) (ops : List (Op T)) :
+    ∀ (a a' : Arena T) (outs : List (Out T)) (id : Nat), AInv a → run dflt a ops = .ok (a', outs) →
+      (a.get id).isSome →
+      (∀ op ∈ ops, op ≠ .deallocate id ∧ op ≠ .deallocateNoReturn id ∧ op ≠ .clear ∧ op ≠ .compact) →
+      (a'.get id).isSome := by
+  intro a a' outs id h hr hl hops
+  induction ops generalizing a outs with
+  | nil => simp only [run, Res.ok.injEq, Prod.mk.injEq] at hr; exact hr.1 ▸ hl
+  | cons op ops ih =>
+    simp only [run] at hr
+    cases hs : step dflt a op with
+    | ok r =>
+      rw [hs] at hr
+      simp only [Res.bind_ok] at hr
+      cases hr2 : run dflt r.1 ops with
+      | ok r' =>
+        rw [hr2] at hr
+        simp only [Res.map_ok, Res.ok.injEq, Prod.mk.injEq] at hr
+        have h1 := step_refines dflt a r.1 op r.2 h (by rw [hs])
+        have hop := hops op (by simp)
+        have hl1 : (r.1.get id).isSome := by
+          have hsp := h1.2.1
+          cases op with
+          | allocate x =>
+            cases ho : r.2 <;> rw [ho] at hsp <;> simp only [SpecStep] at hsp
+            rename_i j
+            by_cases hj : id = j
+            · subst hj; rw [hsp.2.1] at hl; simp at hl
+            · rw [hsp.2.2.2 id hj]; exact hl
+          | deallocate j =>
+            cases ho : r.2 <;> rw [ho] at hsp <;> simp only [SpecStep] at hsp
+            have : id ≠ j := fun e => hop.1 (by rw [e])
+            rw [hsp.2.2 id this]; exact hl
+          | deallocateNoReturn j =>
+            cases ho : r.2 <;> rw [ho] at hsp <;> simp only [SpecStep] at hsp
+            have : id ≠ j := fun e => hop.2.1 (by rw [e])
+            rw [hsp.2.2 id this]; exact hl
+          | get j =>
+            cases ho : r.2 <;> rw [ho] at hsp <;> simp only [SpecStep] at hsp
+            rw [hsp.2]; exact hl
+          | write j x =>
+            cases ho : r.2 <;> rw [ho] at hsp <;> simp only [SpecStep] at hsp
+            by_cases hj : id = j
+            · subst hj; rw [hsp.2.1]; simpa using hl
+            · rw [hsp.2.2 id hj]; exact hl
+          | contains j =>
+            cases ho : r.2 <;> rw [ho] at hsp <;> simp only [SpecStep] at hsp
+            rw [hsp.2]; exact hl
+          | counts =>
+            cases ho : r.2 <;> rw [ho] at hsp <;> simp only [SpecStep] at hsp
+            rw [hsp]; exact hl
+          | clear => exact absurd rfl hop.2.2.1
+          | compact => exact absurd rfl hop.2.2.2
+        exact hr.1 ▸ ih r.1 r'.2 h1.1 (by rw [hr2, ← hr.1]) hl1 (fun o ho => hops o (by simp [ho]))
+      | panic => rw [hr2] at hr; simp [Res.map] at hr
+      | diverge => rw [hr2] at hr; simp [Res.map] at hr
+      | ub => rw [hr2] at hr; simp [Res.map] at hr
+    | panic => rw [hs] at hr; simp at hr
+    | diverge => rw [hs] at hr; simp at hr
+    | ub => rw [hs] at hr; simp at hr
+
+/-- so an `allocate` after such a stretch of calls never returns `id` again -/
+theorem no_reissue_while_live (dflt : T) (ops : List (Op T)) (a a1 a2 : Arena T) (outs : List (Out T)) (id id' : Nat)
+    (x : T) (h : AInv a) (hr : run dflt a ops = .ok (a1, outs)) (hl : (a.get id).isSome)
+    (hops : ∀ op ∈ ops, op ≠ .deallocate id ∧ op ≠ .deallocateNoReturn id ∧ op ≠ .clear ∧ op ≠ .compact)
+    (he : a1.allocate x = .ok (id', a2)) : id' ≠ id := by
+  have h1 := reachable_inv dflt ops a a1 outs h hr
+  have hl1 := live_handle_stays dflt ops a a1 outs id h hr hl hops
+  have hf := (allocate_fresh a1 a2 h1 x id' he).2.1
+  intro e; subst e; rw [hf] at hl1; simp at hl1
+
+/-- non-vacuity of the two statements above: handle 1 survives a stretch with reuse of slot 0, and the
+    allocation after it returns 0, not 1 -/
+example :
+    (run 0 (Arena.empty : Arena Nat) [.allocate 5, .allocate 6, .deallocate 0, .write 1 7, .allocate 9, .get 1]).map
+        (fun r => r.2) = .ok [.handle 0, .handle 1, .item (some 5), .item (some 6), .handle 0, .item (some 7)] := by
+  rfl
+
 /-! ### non-vacuity: a concrete history with reuse, double release and a dead handle -/
 example :
     (run 0 (Arena.empty : Arena Nat)
